@@ -446,6 +446,48 @@ func c04Worker(c *core.Ctx, job hashJob, res *core.ShardResult, wl *core.WLog) {
 		}
 		res.Count("lists", 1)
 	}
+	// lists of paths relative to the working directory (the function is public: a caller may pass them):
+	// judged among themselves only, a relative and an absolute spelling of a path are different paths
+	// (their digests are compared among themselves only - prefix "rel:" -: whether "a" and "/cwd/a" are
+	// one path or two is not for this check to decide). The second working directory holds files of
+	// the same names with other contents.
+	type relCase struct {
+		dir  string
+		list []string
+	}
+	relCases := []relCase{{"", []string{"a", "b"}}, {"", []string{"a", "ab", "abc"}}, {"", []string{"d/a", "a"}}, {"", []string{"big70", "c", "e", "da"}},
+		{"", []string{"b", "a", "d/ab", "big1m", "c"}}, {"", []string{"a", "ab"}}, {"d", []string{"a", "ab"}}, {"", []string{"ab", "a"}}}
+	if cwd, err := os.Getwd(); err == nil {
+		for li, rc := range relCases {
+			l := rc.list
+			if os.Chdir(filepath.Join(st.Root, rc.dir)) != nil {
+				continue
+			}
+			for rep := 0; rep < reps; rep++ {
+				order := append([]string{}, l...)
+				if rep > 0 {
+					core.Shuffle(pr, order)
+				}
+				o := callHash(order, rep%2 == 1, nil)
+				res.Evaluations++
+				if o.Err != nil {
+					res.Violate(core.Violation{Property: "C04", Clause: "hash-returns-digest", Key: "relative" + fmt.Sprint(l),
+						Detail: fmt.Sprintf("Hash failed on existing files given relative to the working directory <root>/%s: %v (list %v)", rc.dir, o.Err, order), Case: core.JSON(map[string]any{"state": st.Contents, "a": order})})
+					continue
+				}
+				tmp := hashState{Root: "relative-to-cwd:", Sums: map[string]string{}}
+				for _, p := range order {
+					tmp.Sums[p] = st.Sums[filepath.Join(rc.dir, p)]
+				}
+				mk, sk, nf := c04Keys(tmp, order)
+				lj, _ := json.Marshal(append([]string{"(relative to the working directory <root>/" + rc.dir + ")"}, order...))
+				fmt.Fprintf(w, "%s\t%s\trel:%s\t%d\t%d\t%s\n", mk, sk, o.Digest, st.ID, nf, lj)
+			}
+			res.Count("relative_lists", 1)
+			_ = li
+		}
+		_ = os.Chdir(cwd)
+	}
 	// a file whose content is another content followed by a slice of itself: what a read loop
 	// that hashes a stale buffer tail cannot tell apart (buffer sizes 4 KiB .. 64 KiB)
 	bigPriv := fmt.Sprintf("privbig.%d.%d", os.Getpid(), st.ID)
